@@ -1,3 +1,2 @@
-From Coq Require Import ZArith QArith List Bool Arith Lia.
-From QE Require Import Base.Num Base.Cases C09.Solve C09.Model.
-Import ListNotations.
+(* C09 lemmas: re-export of Proofs1..6 *)
+From QE Require Export C09.Proofs1 C09.Proofs2 C09.Proofs3 C09.Proofs4 C09.Proofs4b C09.Proofs5 C09.Proofs6.
